@@ -449,6 +449,40 @@ def gen_guards():
     out.append('Definition args_forwarded_unchanged : bool := %s.' % ('true' if fwd and fwd2 and fwd3 and z0 else 'false'))
     return '\n'.join(out) + '\n'
 
+def gen_scipy():
+    """nd_scipy wrappers (C19): method map, options forwarded to scipy, shape plumbing."""
+    out = ['(* ---- nd_scipy (C19) ---- *)']
+    t = ast.parse(open(SRC + 'nd_scipy.py').read())
+    jac = get_class(t, 'Jacobian'); grad = get_class(t, 'Gradient'); com = get_class(t, '_Common')
+    call = get_func(jac, '__call__')
+    src = ast.unparse(call)
+    # method = dict(complex='cs', central='3-point', forward='2-point', backward='2-point')[self.method]
+    dct = None
+    for n in ast.walk(call):
+        if isinstance(n, ast.Subscript) and isinstance(n.value, ast.Call) and getattr(n.value.func, 'id', '') == 'dict' and ast.unparse(n.slice) == 'self.method':
+            dct = {kw.arg: kw.value.value for kw in n.value.keywords if isinstance(kw.value, ast.Constant)}
+    if dct is None: raise Unsupported('nd_scipy.Jacobian.__call__: method dictionary not found (or no longer indexed with [self.method])')
+    arms = ''.join(' | %s => Some "%s"%%string' % (METHODS[k], v) for k, v in dct.items() if k in METHODS)
+    out.append('Inductive method := Central | Central2 | Forward | Backward | Complex | Multicomplex | OtherM.')
+    out.append('Definition scipy_method (m : method) : option string := match m with%s | _ => None end.' % arms)
+    opts = None
+    for n in ast.walk(call):
+        if isinstance(n, ast.Assign) and ast.unparse(n.targets[0]) == 'options' and isinstance(n.value, ast.Call) and getattr(n.value.func, 'id', '') == 'dict':
+            opts = {kw.arg: ast.unparse(kw.value) for kw in n.value.keywords}
+    want = {'method': 'method', 'rel_step': 'self.step', 'args': 'args', 'kwargs': 'kwds', 'bounds': 'self.bounds', 'sparsity': 'self.sparsity'}
+    out.append('Definition scipy_options_forwarded : bool := %s.' % ('true' if opts == want else 'false'))
+    out.append('Definition scipy_x_atleast_1d : bool := %s.' % ('true' if 'x = np.atleast_1d(x)' in src else 'false'))
+    out.append('Definition scipy_calls_approx_derivative : bool := %s.' % ('true' if ('approx_derivative(self.fun, x, **options)' in src or 'approx_derivative(self.fun, x, f0=f_0, **options)' in src) else 'false'))
+    # vector-valued f (f(x) has one axis): the result is made 2-d, so that m = 1 gives (1, n)
+    two_d = ('f_0 = self.fun(x, *args, **kwds)' in src and 'if np.ndim(f_0) == 1:\n        grad = np.atleast_2d(grad)' in src) or 'return np.atleast_2d(grad)' in src
+    out.append('Definition scipy_jacobian_result_2d_for_vector_f : bool := %s.' % ('true' if two_d else 'false'))
+    gsrc = ast.unparse(get_func(grad, '__call__'))
+    out.append('Definition scipy_gradient_ravel_squeeze : bool := %s.' % ('true' if 'super(Gradient, self).__call__(np.atleast_1d(x).ravel(), *args, **kwds).squeeze()' in gsrc else 'false'))
+    init = get_func(com, '__init__')
+    stored = {ast.unparse(n.targets[0]): ast.unparse(n.value) for n in init.body if isinstance(n, ast.Assign)}
+    out.append('Definition scipy_ctor_stores_options : bool := %s.' % ('true' if all(stored.get('self.' + k) == k for k in ('fun', 'step', 'method', 'bounds', 'sparsity')) else 'false'))
+    return '\n'.join(out) + '\n'
+
 def float_const_Q(node):
     """decimal literal -> exact rational text"""
     from fractions import Fraction
@@ -553,7 +587,7 @@ Open Scope Z_scope.
 """
 def outputs():
     """file name (under coq/Gen) -> text.  Separate files so that a change in one area does not rebuild the others."""
-    return {'Spec.v': main(), 'Guards.v': GUARDS_HEADER + gen_guards()}
+    return {'Spec.v': main(), 'Guards.v': GUARDS_HEADER + gen_guards(), 'Scipy.v': GUARDS_HEADER + gen_scipy()}
 def write(out_dir=os.path.dirname(OUT)):
     changed = False
     os.makedirs(out_dir, exist_ok=True)
